@@ -28,7 +28,7 @@ ALLOWED_C = {"ffi.error", "TypeError", "ValueError"}
 # ----------------------------------------------------------------------------- expression trees (model-tied)
 
 # (only tokens that pycparser's lexer produces: the model of literal scanning is about those)
-BAD_LITS = ["0x1p3", "0x1.8p1", "1.5", "1e3", "08", "09", "'ab'", "L'a'", "\"x\"", "'\\x41'", "'\\12'", "1.f", "0X1P-2", "0x.8p0"]
+BAD_LITS = ["0x1p3", "0x1.8p1", "1.5", "1e3", "'ab'", "L'a'", "\"x\"", "'\\x41'", "'\\12'", "1.f", "0X1P-2", "0x.8p0"]
 UNOPS_BAD = ["~", "!"]
 BINOPS_BAD = ["==", "!=", "<", ">", "<=", ">=", "&&", "||"]
 
@@ -175,7 +175,7 @@ def nest_ok(text):
 
 def gen_fuzz(ctx):
     rng, out = ctx.rng, []
-    n = ctx.n(700, 12000)
+    n = ctx.n(500, 12000)
     while len(out) < n:
         k = rng.random()
         if k < 0.55:
@@ -217,12 +217,12 @@ def needs_tables(text):
     """the string contains an identifier that is not a keyword: the parser will look it up in the context's tables.
     On a bare _cffi_backend.FFI() those tables are NULL and UBSan reports `&ctx->typenames->name` (known finding
     null_table_member_address); such strings go to the FFI of a compiled module, except for the finding's witness."""
-    return any(w not in C_KEYWORDS for w in re.findall(r"[A-Za-z_][A-Za-z_0-9]*", text))
+    return any(w not in C_KEYWORDS for w in re.findall(r"[A-Za-z_$][A-Za-z_0-9$]*", text))
 
 
 def gen_ctype(ctx):
     rng, out = ctx.rng, []
-    for _ in range(ctx.n(3000, 40000)):
+    for _ in range(ctx.n(2000, 40000)):
         text = rng.choice(TYPES)
         r = rng.random()
         if r < 0.1:
@@ -240,6 +240,7 @@ def gen_ctype(ctx):
             as_bytes = True
         out.append(dict(kind="ctype", text=text, bytes=as_bytes, ffi=1 if needs_tables(text) else rng.randrange(2)))
     out.append(dict(kind="ctype", text="foo_t", bytes=False, ffi=0))        # witness of null_table_member_address
+    out.append(dict(kind="ctype", text="int(;)", bytes=False, ffi=1))       # witness of failed_argument_index
     # long and deeply nested inputs: the output array and the error-message buffer
     for n in (10, 100, 200, 1000, 5000):
         out.append(dict(kind="ctype", text="int" + "*" * n, bytes=False, ffi=0))
@@ -261,7 +262,7 @@ def gen_macros(ctx):
              "1ll", "0XaBc", "9u", "0u", "-0x0", "1.5", "lu", "0l"]
     for s in fixed:
         out.append(dict(kind="macro", text=s))
-    for _ in range(ctx.n(500, 6000)):
+    for _ in range(ctx.n(400, 6000)):
         out.append(dict(kind="macro", text="".join(rng.choice(MACRO_ALPHABET) for _ in range(rng.randrange(0, 7)))))
     return out
 
@@ -280,13 +281,16 @@ WITNESS_FUZZ = [
     dict(kind="fuzz", api="typeof", text=""), dict(kind="fuzz", api="typeof", text=" "),
     dict(kind="fuzz", api="typeof", text="char[99999999999999999999999]"), dict(kind="fuzz", api="typeof", text="int[-1]"),
     dict(kind="fuzz", api="cdef", text="int a[1 << 99999999999999999999];"), dict(kind="fuzz", api="cdef", text="} typedef double U1 ;"),
+    dict(kind="fuzz", api="typeof", text="..."), dict(kind="fuzz", api="typeof", text="#define long double double"),
+    dict(kind="fuzz", api="cdef", text="typedef unsigned enum e1 ;"),
+    dict(kind="fuzz", api="cdef", text="typedef unsigned char __dotdotdot__ ;"),
 ]
 
 
 def generate(ctx):
     rng = ctx.rng
     cases = [dict(kind="expr", e=e) for e in WITNESS_EXPRS] + list(WITNESS_FUZZ)
-    n = ctx.n(500, 6000)
+    n = ctx.n(400, 6000)
     while len([c for c in cases if c["kind"] == "expr"]) < n:
         e = gen_bad_expr(rng, rng.choice([0, 1, 1, 2, 2, 3, 4, 5]))
         if shift_ok(e):
@@ -314,8 +318,14 @@ def finding_key(case, r):
         return "line_directive_put_back"
     if exc == "OverflowError" and where.endswith(":global_cache") and "index-sized integer" in msg:
         return "array_length_overflow"
-    if exc == "AssertionError" and r.get("inner") == "pycparser/c_parser.py:_pop_scope":
-        return "pycparser_pop_scope_assert"
+    if exc == "AttributeError" and "no attribute 'line'" in msg and (r.get("inner") or "").startswith("cffi/cparser.py:"):
+        return "node_without_coord"
+    if (r.get("inner") or "").startswith("pycparser/"):
+        return "pycparser_internal_error"
+    if exc == "AssertionError" and r.get("inner") == "cffi/cparser.py:_declare":
+        return "internal_marker_name"
+    if exc == "AssertionError" and r.get("inner") == "cffi/cparser.py:parse_type_and_quals":
+        return "typeof_with_define"
     return None
 
 
@@ -332,6 +342,94 @@ def verdict_py(case, r):
     return "%s(%s) escapes from %s() [raised in %s%s]: %r" % (
         exc, r.get("msg", "")[:80], case.get("api", "cdef"), r.get("inner"), ", inside pycparser" if r.get("pycparser") else "",
         case.get("text", "")[:200])
+
+
+
+def recover_build(s):
+    """a second sanitizer build of the back end next to vlib's, with -fsanitize-recover so that one report does not end
+    the process: every input is run, reports are attributed to inputs through markers on stderr"""
+    import shutil
+    import subprocess
+    d = os.path.join(s.dir, "rec")
+    if os.path.exists(d):
+        return d
+    os.mkdir(d)
+    shutil.copytree(os.path.join(s.dir, "cffi"), os.path.join(d, "cffi"))
+    inc, suffix = vlib.py_include()[:2]
+    cmd = ["gcc", "-w", "-O1", "-g", "-fPIC", "-shared", "-fsanitize=address,undefined", "-fno-omit-frame-pointer",
+           "-fsanitize-recover=address,undefined", "-DFFI_BUILDING=1", "-DUSE__THREAD", "-DHAVE_SYNC_SYNCHRONIZE",
+           "-I" + inc, "-I/usr/include/ffi", os.path.join(vlib.REPO, "src", "c", "_cffi_backend.c"), "-lffi",
+           "-o", os.path.join(d, "_cffi_backend" + suffix)]
+    p = subprocess.run(cmd, capture_output=True, text=True)
+    if p.returncode:
+        raise vlib.BuildError("sanitizer build of the back end failed:\n" + p.stderr[-2000:])
+    return d
+
+
+def classify_report(rep, case):
+    """known-finding key of a sanitizer report (None: unknown -> alarm)"""
+    if ("member access within null pointer" in rep and re.search(r"in search_in_\w+ .*parse_c_type\.c", rep)
+            and case.get("ffi") == 0 and needs_tables(case["text"])):
+        return "null_table_member_address"
+    if ("heap-buffer-overflow" in rep and "READ of size 8" in rep and re.search(r"#0 \S+ in parse_sequel .*parse_c_type\.c", rep)
+            and "8 bytes to the left of" in rep):
+        return "failed_argument_index"
+    return None
+
+
+def ctype_key(r):
+    exc, msg = r.get("exc"), r.get("msg") or ""
+    if exc == "OverflowError" and ("array size would overflow" in msg or "index-sized integer" in msg):
+        return "array_length_overflow"
+    if exc == "RuntimeError" and "type-building recursion too deep" in msg:
+        return "type_recursion_limit"
+    return None
+
+
+def run_ctypes(ctx, ctypes):
+    s = ctx.scratch()
+    d = recover_build(s)
+    import subprocess
+    env = {"PYTHONPATH": d + os.pathsep + os.path.join(vlib.ROOT, "tools"),
+           "LD_PRELOAD": subprocess.check_output(["gcc", "-print-file-name=libasan.so"], text=True).strip(),
+           "PYTHONMALLOC": "malloc",
+           "ASAN_OPTIONS": "detect_leaks=0:halt_on_error=0:exitcode=0:allocator_may_return_null=1",
+           "UBSAN_OPTIONS": "print_stacktrace=1:halt_on_error=0"}
+    progress = os.path.join(s.work, "c30_progress")
+    out, p = s.run_worker("c30_worker.py", dict(op="ctype", cases=ctypes, progress=progress, markers=True),
+                          timeout=3000, extra_env=env)
+    if out is None or not isinstance(out["results"], list):
+        try:
+            i = int(open(progress).read().strip() or 0)
+        except (OSError, ValueError):
+            i = 0
+        ctx.violation(ctypes[min(i, len(ctypes) - 1)], "typeof(%r) on a compiled FFI: process died rc=%s\n%s" % (
+            ctypes[min(i, len(ctypes) - 1)]["text"][:300], p.returncode, ((out or {}).get("results") or p.stderr[-2500:])))
+        return
+    # sanitizer reports, attributed by the '@@C30 i' markers the worker writes to stderr before each input
+    reports, cur = {}, None
+    for line in (p.stderr or "").splitlines():
+        if line.startswith("@@C30 "):
+            cur = int(line[6:])
+        elif cur is not None and line.strip():
+            reports.setdefault(cur, []).append(line)
+    for c, r in zip(ctypes, out["results"]):
+        ctx.count()
+        ctx.hist("ctype_outcome", r["exc"] or "ok")
+        if r["exc"] is None:
+            if c["text"].strip() not in TYPES:
+                ctx.nontrivial(("ctype-ok", c["text"]))
+        else:
+            ctx.nontrivial(("ctype", c["text"]))
+            if r["exc"] not in ALLOWED_C:
+                ctx.violation(c, "typeof(%r) on a compiled FFI raises %s: %s" % (c["text"][:200], r["exc"], r.get("msg")),
+                              key=ctype_key(r))
+    for i, lines in sorted(reports.items()):
+        rep = "\n".join(lines)
+        if "runtime error" in rep or "AddressSanitizer" in rep:
+            ctx.hist("sanitizer_reports", classify_report(rep, ctypes[i]) or "unknown")
+            ctx.violation(ctypes[i], "typeof(%r) on a compiled FFI: sanitizer report\n%s" % (ctypes[i]["text"][:300], rep[:1500]),
+                          key=classify_report(rep, ctypes[i]))
 
 
 def label(c):
@@ -409,42 +507,7 @@ def evaluate(ctx, cases):
                     outs.get(k), out2["results"][k], mres[k]["exc"] or "ok", macros[k]["text"]),
                     "C30.Model.r_int_literal/process_macro vs cparser._r_int_literal/_process_macros")
     if ctypes:
-        s = ctx.scratch(asan=True)
-        progress = os.path.join(s.work, "c30_progress")
-        todo, base = list(ctypes), 0
-        for attempt in range(6):
-            if not todo:
-                break
-            out, p = s.run_worker("c30_worker.py", dict(op="ctype", cases=todo, progress=progress), timeout=3000)
-            if out is not None and isinstance(out["results"], list):
-                for c, r in zip(todo, out["results"]):
-                    ctx.count()
-                    ctx.hist("ctype_outcome", r["exc"] or "ok")
-                    if r["exc"] is None:
-                        if c["text"].strip() not in TYPES:
-                            ctx.nontrivial(("ctype-ok", c["text"]))
-                    else:
-                        ctx.nontrivial(("ctype", c["text"]))
-                        if r["exc"] not in ALLOWED_C:
-                            ctx.violation(c, "typeof(%r) on a compiled FFI raises %s: %s" % (c["text"][:200], r["exc"], r.get("msg")))
-                todo = []
-                break
-            if out is not None:
-                ctx.violation(todo[0], "ctype worker setup failed: %r" % (out["results"],))
-                return
-            # crash or sanitizer report: the progress file names the input
-            try:
-                i = int(open(progress).read().strip() or 0)
-            except (OSError, ValueError):
-                i = 0
-            rep = (p.stderr or "")[-3000:]
-            key = None
-            if ("member access within null pointer" in rep and re.search(r"in search_in_\w+ .*parse_c_type\.c", rep)
-                    and todo[i].get("ffi") == 0 and needs_tables(todo[i]["text"])):
-                key = "null_table_member_address"
-            ctx.violation(todo[i], "typeof(%r) on a compiled FFI: process died rc=%s\n%s" % (todo[i]["text"][:300], p.returncode, rep),
-                          key=key)
-            todo = todo[i + 1:]
+        run_ctypes(ctx, ctypes)
     for c in (exprs[:1] + macros[:1] + fuzz[15:17] + ctypes[:2]):
         ctx.sample(c if c["kind"] != "expr" else dict(kind="expr", text=c_text(c["e"])))
 
